@@ -466,6 +466,7 @@ class Module:
         self.classes: Dict[str, ClassInfo] = {}
         self.assigns: Dict[str, List[ast.stmt]] = {}
         self.imports: Dict[str, Tuple[str, Optional[str]]] = {}
+        self.star_imports: List[str] = []
         self.func_def_counts: Dict[str, int] = {}
         self._index(self.tree.body)
         _InlineFilterGenerators(self).run()
@@ -493,6 +494,9 @@ class Module:
             elif isinstance(st, ast.ImportFrom):
                 base = self._resolve_relative(st.module, st.level)
                 for a in st.names:
+                    if a.name == "*":
+                        self.star_imports.append(base)
+                        continue
                     self.imports[a.asname or a.name] = (base, a.name)
             elif isinstance(st, ast.Import):
                 for a in st.names:
@@ -667,6 +671,20 @@ class Program:
                     return ("module", sub)
                 return self.resolve(target, orig, _depth + 1)
             return ("extern", (src, orig))
+        for src in reversed(mod.star_imports):
+            # `from .m import *`: the names of m.__all__ when it is defined, else m's public names
+            if src not in self.modules:
+                raise AnalysisError(f"{mod.name}: star import from {src!r} outside the package is not modelled")
+            target = self.modules[src]
+            if target.const_expr("__all__") is not None or "__all__" in target.assigns:
+                exported = self.fold_name(src, "__all__")
+                if not isinstance(exported, (tuple, list)):
+                    raise AnalysisError(f"{src}.__all__ does not fold to a sequence of names")
+            else:
+                exported = [n for n in list(target.functions) + list(target.classes) + list(target.assigns) + list(target.imports)
+                            if not n.startswith("_")]
+            if name in exported:
+                return self.resolve(target, name, _depth + 1)
         return ("unknown", name)
 
     def get_class(self, name: str, mod: Optional[Module] = None) -> Optional[ClassInfo]:
